@@ -248,3 +248,25 @@ func vGrid32(name string) float32 {
 	vAssume(vAnd(k >= -32, k < 32))
 	return float32(k) / 4
 }
+
+// vExpectLevel mirrors the engine's model of math/rand/v2.Float64 for HNSW
+// level draws: natively it returns the level the replay file's draws imply for
+// the next Add (so the native run can be retried until the real random levels
+// match); under gosymex it returns -1 (levels are decided by the symbolic draws).
+func vExpectLevel(M int) int {
+	level := 0
+	for vRandLeft > 0 && level < 16 {
+		vRandLeft--
+		vRandCount++
+		r := vF64("rand" + strconv.Itoa(vRandCount))
+		if _, ok := vReplay.Inputs["rand"+strconv.Itoa(vRandCount)]; !ok {
+			r = 0.75
+		}
+		if r < 1.0/float64(M) {
+			level++
+		} else {
+			break
+		}
+	}
+	return level
+}
